@@ -568,14 +568,16 @@ std::string emit_mps(Tape &t, const Model &m, EmitStats &st) {
     if (r.sense == 'R') {
       hasrng[i] = true;
       int k = (int)t.below(4);
-      if (r.range == 0) k = 2 + (int)t.below(2);            // only an E row can denote a zero-width range... (G/L with range 0 also denote it)
+      // a zero-width range: an E row with a zero entry, or a G / L row with a RANGES entry of 0 (R = 0 on a G row
+      // means rhs <= row <= rhs + 0, on an L row rhs - 0 <= row <= rhs: an equation either way)
       switch (k) {
       case 0: decl[i] = 'G'; rhs[i] = r.rhs; rng[i] = t.coin() ? r.range : -r.range; st.features.insert("ranges:on-G"); break;
       case 1: decl[i] = 'L'; rhs[i] = r.rhs + r.range; rng[i] = t.coin() ? r.range : -r.range; st.features.insert("ranges:on-L"); break;
       case 2: decl[i] = 'E'; rhs[i] = r.rhs; rng[i] = r.range; st.features.insert("ranges:on-E-positive"); break;
       default: decl[i] = 'E'; rhs[i] = r.rhs + r.range; rng[i] = -r.range; st.features.insert("ranges:on-E-negative"); break;
       }
-      if (r.range == 0 && rng[i] == 0) { hasrng[i] = false; decl[i] = 'E'; rhs[i] = r.rhs; }   // plain equation
+      if (r.range == 0 && rng[i] == 0 && decl[i] == 'E') { hasrng[i] = false; rhs[i] = r.rhs; }   // plain equation
+      if (r.range == 0 && decl[i] != 'E') st.features.insert("ranges:zero-on-G-or-L");
     }
     if (decoy && i == decoy_at) o += " N" + sep() + decoyrow + "\n";
     o += " " + std::string(1, decl[i]) + sep() + r.name + "\n";
